@@ -6,6 +6,9 @@ import Proofs.InterpStream
 import Proofs.InterpSorted
 import Proofs.InterpPass3
 import Proofs.InterpPass1Sorted
+import Proofs.InterpKway
+import Proofs.InterpBoMat
+import Proofs.InterpMergeVocab
 /-!
 # C13 — Log-linear interpolation is the normalised weighted product of its inputs
 
@@ -365,6 +368,119 @@ theorem pass3_throws_on_witness :
   have hpc : PrefixClosedD witness := by unfold PrefixClosedD; decide
   have hmem : [1, 3] ∈ stuck witness := by rw [abort_witness]; simp
   exact (pass3_zip witness hsc hpc).2.2 [1, 3] hmem (by simp)
+
+/-! ## Round 3: the component streams, the back-off matrix, the vocabulary merge -/
+
+/-- **Pass 1 with the component streams kept apart** (`NGramHandler::active_`, the `minimum` loop
+of `HandleSuffix`).  `initActs cs k` is what the constructor builds from the component files: one
+active entry per component that has n-grams of order `k`, tagged with its *model number*, holding
+the component's own `SuffixOrder`-sorted stream.  For a union closed under dropping the first word,
+`handleK` (smallest first word among the heads that end in the suffix; every stream whose head is
+that n-gram contributes at its model number and is advanced; recursion; loop) consumes all
+component streams of all orders and writes, in `SuffixOrder`, one record per union n-gram with
+exactly the values of the functional model (`p1Rec`, cf. `pass1_record_values`). -/
+theorem pass1_kway (cs : Comps Nat) (h : UnionSuffixClosed cs) (D fuel : Nat)
+    (hfuel : needE (sortedYg cs) D (sortedYg cs []) [] ≤ fuel) :
+    handleK (cs.map (·.1)) fuel ((List.range (D + 1)).map (fun j => initActs cs (j + 1))) []
+        (mergeFb cs []) =
+      (List.replicate (D + 1) [],
+        (sortedYg cs []).flatMap (fun y => specP1 cs (sortedYg cs) D [y])) := by
+  have := pass1_kway_sorted cs h D fuel hfuel
+  simp only [initActs_eq]
+  exact this
+
+/-- **the merged stream the k-way selection produces**: when the head of the merged
+(`SuffixOrder`-sorted union) stream is `gram`, the `minimum` loop picks it, and advancing returns as
+contributors exactly the components that have `gram` — each under its own model number, with its
+own probability — and leaves every component stream at the view of the rest of the merged stream. -/
+theorem kway_selects_head (cs : Comps Nat) (y w : Nat) (g : List Nat) (M' : List (Rec Nat))
+    (hhas : HasGram cs (y :: g)) (hge : ∀ r ∈ M', ∀ z, r.1 = z :: g → y ≤ z)
+    (hne : ∀ r ∈ M', r.1 ≠ y :: g) :
+    minFirst (actsOf cs ((y :: g, w) :: M')) g = some y ∧
+    advance (actsOf cs ((y :: g, w) :: M')) (y :: g) = (contribFrom cs 0 (y :: g), actsOf cs M') ∧
+    (∀ i, (contribFrom cs 0 (y :: g)).lookup i =
+      (cs[i]?).bind (fun p => (p.2.findGram (y :: g)).map (fun e => e.prob))) ∧
+    applyContrib (cs.map (·.1)) (mergeFb cs g) (contribFrom cs 0 (y :: g)) g.length = mergeFb cs (y :: g) :=
+  ⟨minFirst_actsOf cs y w g M' hhas hge, advance_actsOf cs (y :: g) w M' hne,
+    fun i => by rw [lookup_contribFrom]; simp, applyContrib_mergeFb cs y g⟩
+
+/-- **seeded change C13-3 breaks `kway_selects_head`.**  Tagging a stream with its position among
+the components that *have* the order (instead of its model number): for the two components of
+`abort_witness` (a bigram model listed before a trigram model) the trigram `<s> b </s>` is
+contributed under model number 0 instead of 1, and `probs[]`/`from[]` are overwritten for the wrong
+component. -/
+theorem c13_3_wrong_model_index :
+    (advance (actsOfMut witness 3 [([1, 4, 2], 0)]) [1, 4, 2]).1 = [(0, -1)] ∧
+    contribFrom witness 0 [1, 4, 2] = [(1, -1)] ∧
+    applyContrib (witness.map (·.1)) (mergeFb witness [4, 2])
+        (advance (actsOfMut witness 3 [([1, 4, 2], 0)]) [1, 4, 2]).1 2 ≠ mergeFb witness [1, 4, 2] := by
+  refine ⟨by decide +kernel, by decide +kernel, by decide +kernel⟩
+
+/-- **`BackoffManager::Get`.**  `pathMat cs K c` is the `BackoffMatrix` while `SameContext(c)` runs
+(flat `backing_[model * max_order + level]`; the suffixes of `c` entered one per level, `Enter`
+copying the back-off of the streams whose head is the context).  Then `Get(i, l)` is component
+`i`'s back-off for the suffix of `c` of length `l + 1` — 0 unless the component has it below its
+own top order — and 0 from level `|c|` upwards; `Exit` after `Enter` restores every cell. -/
+theorem backoff_matrix_get {W : Type} [DecidableEq W] (cs : Comps W) (K : Nat) (c : List W)
+    (hK : c.length ≤ K) :
+    (∀ i l (hi : i < cs.length), l < K →
+      (pathMat cs K c).get i l = if l < c.length then (cs[i]).2.boOf (sufOf c (l + 1)) else 0) ∧
+    (∀ y, (y :: c).length ≤ K → ∀ i l, i < cs.length → l < K →
+      (exitMat cs (enterMat cs (pathMat cs K c) (y :: c)) (y :: c)).get i l = (pathMat cs K c).get i l) := by
+  obtain ⟨hW, hG⟩ := get_pathMat cs K c hK
+  refine ⟨hG, fun y hy i l hi hl => ?_⟩
+  apply get_exit_enter cs _ K (y :: c) hW (by simp) hy _ i l hi hl
+  intro j
+  by_cases hj : j < cs.length
+  · rw [hG j _ hj (by simp at hy ⊢; omega)]; simp
+  · exact get_out_of_range hW (by omega)
+
+/-- **the charging loop of `SameContext`** (`for backed_to = from … order-3: accumulated +=
+Get(m, backed_to)`, then `Get(m, order-2)` if `from < order-1`) adds `LM.charge c from` to `Prob()`
+and `LM.charge c.tail from` to `LowerProb()` — the quantities of `pass12_refines`. -/
+theorem charging_loop {W : Type} [DecidableEq W] (cs : Comps W) (K : Nat) (c : List W)
+    (hK : c.length ≤ K) (i : Nat) (hi : i < cs.length) (from_ : Nat) :
+    (chargeLoop (pathMat cs K c) i from_ c.length).2 = (cs[i]).2.charge c from_ ∧
+    (chargeLoop (pathMat cs K c) i from_ c.length).1 = (cs[i]).2.charge c.tail from_ :=
+  chargeLoop_pathMat cs K c hK i hi from_
+
+/-- a component with distinct back-offs at the levels 1, 2, 3 (words 3 `a`, 4 `b`, 5 `c`) -/
+def boLevels : LM Nat :=
+  { order := 5, unk := 0,
+    entries := [⟨[], 0, -2, 0⟩, ⟨[], 5, -1, -1/2⟩, ⟨[4], 5, -1, -1/4⟩, ⟨[3, 4], 5, -1, -1/8⟩] }
+
+/-- **seeded change C13-5 breaks `charging_loop`.**  `Get(m, found)` instead of `Get(m, backed_to)`:
+for the context `a b c` and a component found at level 0 the loop must charge
+`b(c) + b(b c) + b(a b c) = -7/8`; the mutated loop charges `b(c)` twice: `-9/8`. -/
+theorem c13_5_wrong_level :
+    (chargeLoop (pathMat [(1, boLevels)] 4 [3, 4, 5]) 0 0 3).2 = -7/8 ∧
+    boLevels.charge [3, 4, 5] 0 = -7/8 ∧
+    (chargeLoopMut (pathMat [(1, boLevels)] 4 [3, 4, 5]) 0 0 3).2 = -9/8 := by
+  refine ⟨by decide +kernel, by decide +kernel, by decide +kernel⟩
+
+/-- **`MergeVocab`: universal ids and the per-model id maps.**  `mergeVocabLoop pops 0 0` is the
+`while (!heap.empty())` loop on the pops in heap order.  For *any* hash function (`hash` fields) and
+*any* tie order of the heap, as long as the pops come in non-decreasing hash order and no hash is 0:
+two `(model, local id)` pairs are mapped to the same universal id iff their hashes are equal, ids are
+monotone in the hash, lie in `1 … #pops`; with a hash that is injective on the words at hand, same
+universal id ⇔ same word (so `Renumber` identifies exactly the equal words; 0 stays `<unk>`). -/
+theorem merge_vocab_ids (pops : List VPop) (hs : pops.Pairwise (fun a b => a.hash ≤ b.hash))
+    (hpos : ∀ p ∈ pops, 0 < p.hash) :
+    (∀ a ∈ mergeVocabLoop pops 0 0, ∀ b ∈ mergeVocabLoop pops 0 0,
+      (a.hash = b.hash ↔ a.univ = b.univ) ∧ (a.hash < b.hash ↔ a.univ < b.univ) ∧ 1 ≤ a.univ ∧
+      a.univ ≤ pops.length) ∧
+    (∀ (H : String → Nat) (wordOf : Nat → Nat → String),
+      (∀ p ∈ pops, p.hash = H (wordOf p.model p.loc)) →
+      (∀ p ∈ pops, ∀ q ∈ pops, H (wordOf p.model p.loc) = H (wordOf q.model q.loc) →
+        wordOf p.model p.loc = wordOf q.model q.loc) →
+      ∀ a ∈ mergeVocabLoop pops 0 0, ∀ b ∈ mergeVocabLoop pops 0 0,
+        (a.univ = b.univ ↔ wordOf a.model a.loc = wordOf b.model b.loc)) :=
+  ⟨mergeVocab_ids pops hs hpos, fun H wordOf hH hinj a ha b hb =>
+    (mergeVocab_words H wordOf pops hs (fun p hp => ⟨hH p hp, hpos p hp⟩) hinj a ha b hb).1⟩
+
+/-- non-vacuity / the zero-hash corner: a word whose hash is 0 is merged into `<unk>` (id 0) -/
+example : mergeVocabLoop [⟨0, 0, 1⟩, ⟨5, 1, 1⟩, ⟨5, 0, 2⟩, ⟨9, 1, 2⟩] 0 0 =
+    [⟨0, 0, 1, 0⟩, ⟨5, 1, 1, 1⟩, ⟨5, 0, 2, 1⟩, ⟨9, 1, 2, 2⟩] := by decide
 
 /-! ## Real numbers: the log-level statements -/
 section Real
